@@ -751,6 +751,28 @@ func cmdCheck(args []string) int {
 		ev.Coverage["bounded"] = bounded
 		ev.Coverage["known_findings"] = known
 	}
+	// thorough tier: encoder cross-check of every whole-function unit (proved clauses evaluated on the real code)
+	if *tier == "thorough" && os.Getenv("HVC_REPO") == "" {
+		var ccs []crossCheck
+		seenUnit := map[string]bool{}
+		for _, r := range rs {
+			ob := r.Ob
+			if ob.Kind != "cover" || ob.exec == nil || ob.exec.uc == nil || ob.exec.uc.Region != "" || ob.exec.uc.Lemma || ob.exec.unit == nil || ob.exec.unit.Lit != nil || seenUnit[ob.Unit] {
+				continue
+			}
+			seenUnit[ob.Unit] = true
+			ccs = append(ccs, encoderCrossCheck(prog, cs, prop, ob))
+		}
+		ev.Coverage["encoder_crosscheck"] = ccs
+		for _, c := range ccs {
+			if !c.Held {
+				fmt.Fprintf(os.Stderr, "broken check: encoder cross-check: a clause proved for %s is observed false on the real function: %v\n", c.Unit, c.Failed)
+				data, _ := json.MarshalIndent(ev, "", " ")
+				os.WriteFile(filepath.Join(outRoot(), "evidence", prop+".json"), data, 0o644)
+				return 2
+			}
+		}
+	}
 	// thorough tier: the must-fail corpus of this property (seeded changes on scratch copies; each must raise a violation)
 	if *tier == "thorough" && os.Getenv("HVC_NO_SELFTEST") == "" && os.Getenv("HVC_REPO") == "" {
 		st, allCaught := runSeeds(map[string]bool{prop: true})
